@@ -9,7 +9,7 @@ C01_ARITH = [
     r"^lemma::",
 ]
 C02_ARITH = [
-    r"^(rnd_f|result_f|float_i_to_f|float_r_to_f|float|unary_float_fn_template|sin|cos|tan|log|exp|asin|acos|atan|float_fractional_part|float_integer_part|sqrt|atan2|Number_div|div|float_pow|pow|round|floor|ceiling|truncate|zero_divisor_eval_error|undefined_eval_error)::", r"^rational_from_number::(body|post#4)$",
+    r"^(rnd_i|rnd_f|result_f|float_i_to_f|float_r_to_f|float|unary_float_fn_template|sin|cos|tan|log|exp|asin|acos|atan|float_fractional_part|float_integer_part|sqrt|atan2|Number_div|div|float_pow|pow|round|floor|ceiling|truncate|zero_divisor_eval_error|undefined_eval_error)::", r"^rational_from_number::(body|post#4)$",
     r"^add::(body|post#[34])$", r"^mul::(body|post#[23])$", r"^neg::(body|post#3)$", r"^abs::(body|post#3)$",
     r"^max::(body|post#3)$", r"^min::(body|post#3)$", r"^int_pow::(body|post#[14])$",
     r"^Number_is_zero::(body|post#3)$", r"^Number_is_negative::(body|post#3)$", r"^Number_sign::(body|post#3)$",
@@ -84,7 +84,7 @@ PROPS = {
     "C05": {
         "title": "Equal integers behave identically regardless of how they were produced",
         "v_units": ["unifynum", "numcmp", "arith", "switchsel", "termcmp"],
-        "ob_filter": {"switchsel": [r"^select_switch_on_term_index::"], "termcmp": [r"^ParallelHeapIter_parallel_cmp::", r"^MachineState_(compare_term_test|eq_test)::"], "arith": [r"^(arena_from_i64|arena_from_isize|arena_from_usize|round|floor|ceiling|truncate)::"], "numcmp": [r"^(Number_cmp|Number_eq)::", r"^lemma::lemma_int_cmp_by_value$"]},
+        "ob_filter": {"switchsel": [r"^select_switch_on_term_index::"], "termcmp": [r"^ParallelHeapIter_parallel_cmp::", r"^MachineState_(compare_term_test|eq_test)::"], "arith": [r"^(arena_from_i64|arena_from_isize|arena_from_usize|rnd_i|round|floor|ceiling|truncate)::"], "numcmp": [r"^(Number_cmp|Number_eq)::", r"^lemma::lemma_int_cmp_by_value$"]},
         "s_checks": ["switch_routes"],
         "k_groups": ["fixnum_repr"],
         "replay": "index",
